@@ -169,6 +169,8 @@ class VLoop(asyncio.BaseEventLoop):
             self._run_ready_head()
             return
         env.env_events += 1
+        if ready:
+            env.injected.add(len(env.trace))  # trace index of an environment event injected at a non-quiescent point
         if kind == "gate":
             env.log("env", "gate", o[1])
             self.gates.pop(o[1]).set_result(None)
@@ -202,6 +204,7 @@ class Env:
         self.frozen = False
         self.in_loop = True
         self.inject_filter = None
+        self.injected: set[int] = set()
         self.pending_signals: list[int] = []
         self.quiescent_hooks: list[Callable[[], None]] = []
         self.env_events = 0
